@@ -34,3 +34,5 @@ def run(ctx):
     lib_py.kw_forward(ctx, py, mods=("trees",), only=ps)
     lib_py.null_index(ctx, py)
     lib_mem.c_lints(ctx, ctx.program(), scopes.lib_scope("C06"))
+    from . import lib_kind5
+    lib_kind5.tree_reset_unconditional(ctx, ctx.program())
